@@ -10,6 +10,24 @@ from sa.load import Cls, Func, Repo, body_nodes, unparse
 from sa.normalize import Normalizer, _params, stored_names
 
 
+# positional parameter names of callees outside the package (cryptography / stdlib), for keyword-style calls
+EXT_SIGS: t.Dict[str, t.List[str]] = {
+    "aes_key_wrap": ["wrapping_key", "key_to_wrap", "backend"],
+    "aes_key_unwrap": ["wrapping_key", "wrapped_key", "backend"],
+    "encrypt": ["nonce", "data", "associated_data"],
+    "decrypt": ["nonce", "data", "associated_data"],
+    "pow": ["base", "exp", "mod"],
+    "urandom": ["size"],
+    "derive_private_key": ["private_value", "curve", "backend"],
+    "EllipticCurvePublicNumbers": ["x", "y", "curve"],
+    "exchange": ["algorithm", "peer_public_key"],
+    "ConcatKDFHash": ["algorithm", "length", "otherinfo", "backend"],
+    "derive": ["key_material"],
+    "AESGCM": ["key"],
+    "generate_key": ["bit_length"],
+}
+
+
 def signature(repo: Repo, f: Func, call: ast.Call) -> t.Optional[t.Tuple[str, t.List[str]]]:
     """(callee qualified name, positional parameter names seen by the caller) for package functions / methods / ctors."""
     nz = getattr(repo, "_sig_nz", None)
@@ -25,7 +43,7 @@ def args_of(repo: Repo, f: Func, call: ast.Call, params: t.Optional[t.List[str]]
     `params` gives the positional order for callees outside the package."""
     if params is None:
         sig = signature(repo, f, call)
-        params = sig[1] if sig is not None else []
+        params = sig[1] if sig is not None else EXT_SIGS.get(unparse(call.func).rsplit(".", 1)[-1].split("#")[0], [])
     out: t.Dict[str, ast.expr] = {}
     for p, a in zip(params, call.args):
         if isinstance(a, ast.Starred):
@@ -86,7 +104,7 @@ def ev_args(repo: Repo, f: Func, ev: t.Any, params: t.Optional[t.List[str]] = No
     substituted tree (expressed over the function's inputs)."""
     if params is None:
         sig = signature(repo, f, t.cast(ast.Call, ev.node))
-        params = sig[1] if sig is not None else []
+        params = sig[1] if sig is not None else EXT_SIGS.get(unparse(t.cast(ast.Call, ev.node).func).rsplit(".", 1)[-1], [])
     return args_of(repo, f, t.cast(ast.Call, ev.tree), params)
 
 
